@@ -5,7 +5,7 @@ import runlib as R
 ID = 'C12'
 COQ_TARGETS = ['Props/Properties_C12.vo']
 PROPS_FILES = ['Props/Properties_C12.v']
-THEOREMS = ['C12_combine', 'C12_documented_is_function', 'C12_inherit', 'C12_global_keys', 'C12_syntax', 'C12_refuted', 'C12_spf_temp_class_witness', 'C12_checker_sound_partial', 'C12_unfixed_refuted']
+THEOREMS = ['C12_combine', 'C12_documented_is_function', 'C12_inherit', 'C12_global_keys', 'C12_syntax', 'C12_plain_files', 'C12_refuted', 'C12_spf_temp_class_witness', 'C12_checker_sound_partial', 'C12_unfixed_refuted']
 ENGINES = [dict(name='filters', c_sources=['filters_h.c', 'filters_real.c', 'filters_real2.c'], extract='Extract/Extract_filters.v',
                 driver='filters_driver.ml', accepts=lambda c: c.startswith('cc '))]
 RULE = ('cases = (outcome of each of the 16 filters named in rcpt_cbs[], filterconf bytes at user / domain / global level incl. '
@@ -17,7 +17,7 @@ RULE = ('cases = (outcome of each of the 16 filters named in rcpt_cbs[], filterc
         'newline; non-trivial = the C rejected the recipient or a probe returned a non-zero value; distinct by case text')
 TRUSTED_BASE = [
     'Coq 8.16.1 kernel (coqc; coqchk in thorough); vm_compute only on closed terms built from generated constants (reply templates, enum values) and in the examples; no native_compute',
-    'axioms: none (Print Assumptions: Closed under the global context for all six theorems)',
+    'axioms: none (Print Assumptions: Closed under the global context for all ten theorems)',
     'translator tools/translators/filters.py: regexes over qsmtpd/commands.c (smtp_rcpt), qsmtpd/filters/rcpt_filters.c, include/qsmtpd/userfilters.h, userconf.h, '
     'backends/user_vpopm/getfile.c produce Gen/GenFilters.v: order of rcpt_cbs[], enum values, flags, setting names, reply templates, loop condition, '
     'and the boolean FREE_BEFORE_SETTINGS (position of userconf_free(&ds) relative to the getsetting(&ds, ...) reads)',
@@ -258,9 +258,11 @@ LEVEL_TEXT = ('Machine-checked Coq theorems over an executable model of checkcon
               'templates, setting names and the position of userconf_free(&ds) are regenerated from the C on every run; the model is tied '
               'to the real smtp_rcpt + vpopmail backend + control-file loader by a differential run on generated directory trees under ASan.')
 LEVEL_NOTE = ('Trusted: Coq kernel, translator regexes, extraction (ExtrOcamlBasic), harness and stand-ins, generator quality of the correspondence '
-              'run. Assumed: lines about the two settings are in the documented syntax (else only model-vs-C agreement is checked); the real '
-              'filters are outside the theorems. The theorems hold for the tree with fixes/C12-rcpt-settings-after-free.diff applied; on the '
-              'shipped tree FREE_BEFORE_SETTINGS = true breaks the proof obligation settings_read_before_free and the corpus witness fails.')
+              'run. Assumed: lines about the two settings are in the documented syntax (else only model-vs-C agreement is checked); twelve of the '
+              'sixteen real filters are stand-ins. The theorems hold for the tree with fixes/C12-rcpt-settings-after-free.diff and '
+              'fixes/C12-filterconf-global-keys.diff applied; on the shipped tree FREE_BEFORE_SETTINGS = true breaks the obligation '
+              'settings_read_before_free, KEY_TABLE breaks key_table_consistent, and the corpus witnesses fail. Known finding F-C12-3 (real cb_spf '
+              'answers a temporary SPF error itself): C12_refuted / C12_checker_sound_partial, class spf-temp-own-reply.')
 TECHNIQUE = ('Coq proofs by induction over entry lists / filter-result lists (loop invariant on (fr, e, i)); relation-vs-function equivalence for the '
              'documented combination; checker-soundness theorem for the executable spec; translator-regenerated tables; model-vs-C differential run')
-DESIGN_REF = 'DESIGN.md section 5, C12; finding F-C12-1 in section 7'
+DESIGN_REF = 'DESIGN.md section 5, C12; finding F-C12-1 in section 7; reports/C12.md'
